@@ -462,10 +462,9 @@ const Scope SCOPES[] = {
     {"3L-1P-2C-2B", 3, 1, 2, 2, true},
     {"2L-2P-2C-1B", 2, 2, 2, 1, false},
     {"3L-1P-3C-2B", 3, 1, 3, 2, false},
-    {"2L-2P-3C-1B", 2, 2, 3, 1, false},
-    {"2L-2P-2C-2B", 2, 2, 2, 2, false},
     {"3L-2P-1C-1B", 3, 2, 1, 1, false},
-    {"2L-3P-1C-1B", 2, 3, 1, 1, false},
+    {"2L-2P-3C-1B", 2, 2, 3, 1, false},
+    {"2L-3P-1C-1B", 2, 3, 1, 1, false}, // the largest (about half of the thorough tier's work): last, so a deadline cuts only this one
 };
 
 int ReplayFile()
